@@ -85,6 +85,11 @@ impl FromStr for ZcashAddress {
                 }
             };
 
+            // Reject non-canonical padding of the final 5-bit group (BIP 173: at most four
+            // bits, all zero), which `byte_iter` would otherwise silently discard.
+            parsed
+                .validate_segwit_padding()
+                .map_err(|_| ParseError::InvalidEncoding)?;
             let data = parsed.byte_iter().collect::<Vec<_>>();
 
             return data
@@ -107,6 +112,10 @@ impl FromStr for ZcashAddress {
                 }
             };
 
+            // As above: the padding of the final 5-bit group must be canonical.
+            parsed
+                .validate_segwit_padding()
+                .map_err(|_| ParseError::InvalidEncoding)?;
             let data = parsed.byte_iter().collect::<Vec<_>>();
 
             return data
